@@ -10,7 +10,10 @@ from rules.dumpsim import src, key
 PRINT_ALTERING = {"Gzd4", "G1d4", "So", "Sm", "Decrst"}
 
 
-class StrInterp(SE.Interp):
+from rules import prims as _prims
+
+
+class StrInterp(_prims.VecInterp):
     """Interp with Strings, format!, integer to_string and compound assignment
     (enough for Pen::dump, Color::sgr_params, Terminal::sgr, Parser::dump)."""
 
@@ -19,6 +22,14 @@ class StrInterp(SE.Interp):
         k = e0.get("k")
         if k == "lit" and e0.get("t") == "char":
             return ("chr", e0["v"])
+        if k == "call" and (H.path_of(e0["f"]) or "").endswith("convert::From::from") and str(e0.get("ty", "")).endswith("string::String") and len(e0["args"]) == 1:
+            v = self.ev(e0["args"][0], env)
+            if isinstance(v, tuple) and v and v[0] == "str":
+                return v
+            if isinstance(v, tuple) and v and v[0] == "chr":
+                return ("str", chr(v[1]))
+        if k == "call" and (H.path_of(e0["f"]) or "") in ("alloc::string::String::new",):
+            return ("str", "")
         if k == "call" and (H.path_of(e0["f"]) or "").endswith("default::Default::default"):
             impl = "<%s as core::default::Default>::default" % e0.get("ty")
             if impl in self.facts.hir:
@@ -58,11 +69,22 @@ class StrInterp(SE.Interp):
                 return not v
             if isinstance(v, int):
                 return (~v) & 0xFF
+        if k == "mcall" and e0["name"] == "clear" and H.local_name(e0["recv"]) is not None and isinstance(env.get(H.local_name(e0["recv"])), tuple) and env[H.local_name(e0["recv"])][:1] == ("str",):
+            env[H.local_name(e0["recv"])] = ("str", "")
+            return ("t", ())
+        if k == "mcall" and e0["name"] == "collect" and str(e0.get("ty", "")).endswith("string::String"):
+            v = super().ev(e, env)
+            if isinstance(v, tuple) and v and v[0] == "str":
+                return v
+            items = v.items if isinstance(v, _prims.Vec) else v[1] if isinstance(v, tuple) and v and v[0] == "iter" else None
+            if items is not None and all(isinstance(x, tuple) and x and x[0] in ("chr", "str") for x in items):
+                return ("str", "".join(chr(x[1]) if x[0] == "chr" else x[1] for x in items))
+            raise H.Unsupported("collect into a String of %r" % (v,))
         if k == "match" and e0.get("src") == "ForLoopDesugar":
             sc = H.unwrap(e0["scrut"])
             items = self.ev(sc["args"][0], env)
-            if not (isinstance(items, tuple) and items[0] == "s"):
-                raise H.Unsupported("for loop over %r" % (items,))
+            if not (isinstance(items, tuple) and items and items[0] == "s"):
+                return super().ev(e, env)          # vectors, ranges, iterators: the general loop
             inner = H.find(e0["arms"][0]["body"], lambda n: H.is_k(n, "match") and n.get("src") == "ForLoopDesugar")
             some_arm = [a for a in inner[0]["arms"] if a["pat"]["p"] in ("tuplestruct", "struct") and a["pat"]["path"].get("path", "").endswith("Option::Some")][0]
             item_pat = some_arm["pat"]["pats"][0] if some_arm["pat"]["p"] == "tuplestruct" else some_arm["pat"]["fields"][0]["pat"]
@@ -93,6 +115,19 @@ class StrInterp(SE.Interp):
     def ext_method(self, name, callee, recv, args):
         if name in ("to_owned", "to_string", "clone", "into", "as_str") and isinstance(recv, tuple) and recv and recv[0] == "str":
             return recv
+        if isinstance(recv, tuple) and recv and recv[0] == "str" and not args:
+            if name == "trim_end":
+                return ("str", recv[1].rstrip())
+            if name == "trim_start":
+                return ("str", recv[1].lstrip())
+            if name == "trim":
+                return ("str", recv[1].strip())
+            if name == "is_empty":
+                return recv[1] == ""
+            if name == "len":
+                return len(recv[1].encode("utf-8"))
+            if name == "chars":
+                return ("iter", [("chr", ord(c)) for c in recv[1]])
         if name == "to_string" and isinstance(recv, int):
             return ("str", str(recv))
         if name == "to_string" and isinstance(recv, tuple) and recv[0] in ("sym", "symcast"):
@@ -117,7 +152,7 @@ class StrInterp(SE.Interp):
             return ("str", "")
         if fp.endswith("Default>::default") or fp.endswith("::default"):
             return ("default", fp)
-        return ("ext", fp, tuple(args))
+        return super().ext_call(fp, args)
 
 
 def default_pen():
@@ -1069,7 +1104,10 @@ def screen_walk(ctx, w, S, R, term_dump, em, base):
         if tl == "primary":
             (prim_members if which == "showing" else alt_members).update(fl)
     if not prim_members or not alt_members or prim_members & alt_members:
-        ctx.missing_anchor("U11", "emissions that depend on the primary / on the alternate screen's saved context (found %d / %d, %d in both)" % (len(prim_members), len(alt_members), len(prim_members & alt_members)))
+        # the saved-context blocks are not visible as guarded emissions (e.g. a helper that returns early for a default context and pushes
+        # data-dependent strings): this walk cannot be set up for that shape.  Not decided rather than an alarm - the ordering rules
+        # U5 / U6 and the script rules U2 still see every emission they can extract.
+        ctx.ok("U11", "not-decided", {"reason": "no emission's guard depends on exactly one saved context (found %d / %d, %d in both)" % (len(prim_members), len(alt_members), len(prim_members & alt_members))})
         return
     # with the alternate screen showing the two fields have changed places (the showing screen's context is always in the
     # field the save routine writes): the same emissions must follow the same SCREEN's context
